@@ -433,7 +433,7 @@ func specParse(n *Node, cfg SpecCfg, in any, dst reflect.Value, path string, loc
 		if n.PreFn == "any" {
 			if in == nil {
 				out.cur, out.curIdx = n, -2
-				out.add(path, "coerce", dtype)
+				out.add(path, "*", dtype)
 				return
 			}
 			specParse(n.Elem, cfg, in, dst, path, loc, out)
@@ -442,7 +442,7 @@ func specParse(n *Node, cfg SpecCfg, in any, dst reflect.Value, path string, loc
 		s, ok := in.(string)
 		if !ok {
 			out.cur, out.curIdx = n, -2
-			out.add(path, "coerce", dtype)
+			out.add(path, "*", dtype)
 			return
 		}
 		switch n.PreFn {
@@ -452,11 +452,11 @@ func specParse(n *Node, cfg SpecCfg, in any, dst reflect.Value, path string, loc
 			specParse(n.Elem, cfg, strings.Split(s, ","), dst, path, loc, out)
 		case "error":
 			out.cur, out.curIdx = n, -3
-			out.add(path, "", dtype)
+			out.add(path, "*", dtype)
 		case "maybe":
 			if strings.Contains(s, "bad") {
 				out.cur, out.curIdx = n, -3
-				out.add(path, "", dtype)
+				out.add(path, "*", dtype)
 				return
 			}
 			specParse(n.Elem, cfg, s, dst, path, loc, out)
@@ -612,12 +612,12 @@ func specValidate(n *Node, cfg SpecCfg, dst reflect.Value, path string, loc []st
 			dst.SetString(strings.TrimSpace(s))
 		case "verror":
 			out.cur, out.curIdx = n, -3
-			out.add(path, "", n.Elem.ZType())
+			out.add(path, "*", n.Elem.ZType())
 			return
 		case "vmaybe":
 			if strings.Contains(s, "bad") {
 				out.cur, out.curIdx = n, -3
-				out.add(path, "", n.Elem.ZType())
+				out.add(path, "*", n.Elem.ZType())
 				return
 			}
 			dst.SetString(s + "+")
